@@ -256,16 +256,18 @@ int main()
 
 def locate(m, msg, vals, path, idx):
     """(level, values, level start offset, wire block length) of the level instance reached by following
-    group names `path` with entry indices `idx`; None if an index does not exist."""
+    group names `path` with entry indices `idx`; None if an index does not exist.  Honours inflated
+    (wire) block lengths recorded in the value tree."""
     level, v = msg, vals
     start = m.enc_size(m.header())
-    bl = m.level_layout(msg)[2]
+    bl = m.level_layout(msg)[2] + vals.extra
     for gname, i in zip(path, idx):
         cur = start + bl
         found = None
         for g in level.groups:
             entries = v.groups[g.name]
-            gbl = m.level_layout(g)[2]
+            ex = entries[0].extra if entries else v.groups.get(("extra", g.name), 0)
+            gbl = m.level_layout(g)[2] + ex
             if g.name == gname:
                 if i >= len(entries):
                     return None
@@ -274,7 +276,7 @@ def locate(m, msg, vals, path, idx):
                     cur += R.level_size(m, g, entries[k], gbl)
                 found = (g, entries[i], cur, gbl)
                 break
-            cur += R.group_size(m, g, entries)
+            cur += R.group_size(m, g, entries, v.groups.get(("extra", g.name), 0))
         if found is None:
             return None
         level, v, start, bl = found
